@@ -9,6 +9,7 @@ import (
 	"path/filepath"
 	"sort"
 	"strings"
+	"time"
 
 	dawn "github.com/pgavlin/dawn"
 	"github.com/pgavlin/dawn/diff"
@@ -38,6 +39,17 @@ def _t(t, d=[1, 2]):
     x = helper(1)
 target(name="t", function=_t, deps=[":u"])
 `,
+	// a second package, loaded by its own goroutine, that needs the project's registry after a
+	// while: a failure while loading the first package must not leave anything locked
+	"zpkg/BUILD.dawn": `n = 0
+for i in range(20000):
+    n += i
+def _z(t):
+    pass
+target(name="z", function=_z, sources=["z.txt"])
+target(name="z2", function=_z)
+`,
+	"zpkg/z.txt": "z\n",
 }
 
 type rfEvents struct {
@@ -62,7 +74,23 @@ func rfWrite(root string) {
 }
 
 // rfBuild loads and builds //:t; returns an outcome class.
-func rfBuild(root string, preferIndex bool) (outcome string) {
+// rfHung is set once a Load/Run has hung in this worker: the hung goroutines are leaked and
+// further cases of this worker are skipped (counted).
+var rfHung bool
+
+func rfBuild(root string, preferIndex bool) string {
+	done := make(chan string, 1)
+	go func() { done <- rfBuildInner(root, preferIndex) }()
+	select {
+	case out := <-done:
+		return out
+	case <-time.After(45 * time.Second):
+		rfHung = true
+		return "HANG"
+	}
+}
+
+func rfBuildInner(root string, preferIndex bool) (outcome string) {
 	defer func() {
 		if p := recover(); p != nil {
 			outcome = fmt.Sprintf("PANIC %v", p)
@@ -260,6 +288,10 @@ func recordFaults(r *vlib.Run) {
 	}
 	r.Distribute(len(cases), func(i int) {
 		c := cases[i]
+		if rfHung {
+			r.Add("record_faults_skipped_after_hang", 1)
+			return
+		}
 		root := filepath.Join(r.Scratch, "rf")
 		os.RemoveAll(root)
 		copyDir(base, root)
@@ -288,6 +320,8 @@ func recordFaults(r *vlib.Run) {
 		r.Add("record_faults", 1)
 		r.Outcome("record_outcomes", c.kind+":"+strings.SplitN(out, " ", 2)[0])
 		switch {
+		case out == "HANG":
+			r.Violation("C15:record-corruption-hang", fmt.Sprintf("%s of %s at %d (%s): Load/Run did not return within 45s", c.kind, c.file, c.pos, c.edit), map[string]any{"file": c.file, "kind": c.kind, "pos": c.pos, "value": c.val, "corrupted": string(m)})
 		case strings.HasPrefix(out, "PANIC"):
 			r.Violation("C15:record-corruption-panic", fmt.Sprintf("%s of %s at %d (%s): %s", c.kind, c.file, c.pos, c.edit, out), map[string]any{"file": c.file, "kind": c.kind, "pos": c.pos, "value": c.val, "corrupted": string(m)})
 		// the run id of //:t matters to nobody: no built target depends on it
